@@ -23,6 +23,7 @@ import lexemes
 from c11 import mutate_text, random_text
 from common import Check, run_tlc, run_oalv_parallel, workdir
 
+SIG = {}      # text -> violation key found in process (the binaries crash for the same reason)
 PANIC_AT = re.compile(r"panicked at ([^\s:]+):(\d+):\d+:\s*\n?([^\n]*)")
 
 
@@ -82,14 +83,14 @@ def in_process(chk, texts, label):
                     if isinstance(o.get(ph), dict) and o[ph].get("result") == "panic":
                         pj = o[ph]["panic"]
                         if ph == "load":
-                            chk.violation("C04|panic|%s" % sig_of_panic(pj["msg"], pj["at"]),
-                                          "panic while loading/compiling %r: %s at %s" % (t[:60], pj["msg"][:100], pj["at"]),
-                                          {"text": t, "front_end": fe, "phase": ph, "panic": pj})
-                        # eval/emit panics on accepted programs are C01's subject; they are also a crash of the front end
+                            key = "C04|panic|%s" % sig_of_panic(pj["msg"], pj["at"])
                         else:
-                            chk.violation("C04|panic|%s" % sig_of_panic(pj["msg"], pj["at"]),
-                                          "panic in %s of %r: %s at %s" % (ph, t[:60], pj["msg"][:100], pj["at"]),
-                                          {"text": t, "front_end": fe, "phase": ph, "panic": pj})
+                            # an accepted program crashing the back end (the subject of C01) is also a crash of the front end
+                            import progs
+                            key = "C04|eval-crash|%s|%s" % progs.crash_signature(pj["msg"])
+                        SIG[t] = key
+                        chk.violation(key, "panic in %s of %r: %s at %s" % (ph, t[:60], pj["msg"][:100], pj["at"]),
+                                      {"text": t, "front_end": fe, "phase": ph, "panic": pj})
                 continue
             if oc == "skipped":
                 continue
@@ -122,7 +123,8 @@ def binaries(chk, texts, label):
                 sig = sig_of_panic(o["wasm"].get("msg"), o["wasm"].get("at"))
             else:
                 sig = "lsp-exit"
-            chk.violation("C04|%s-crash|%s" % (fe, sig), "%s: %s on %r" % (fe, what[:160], t[:60]), {"text": t, "front_end": fe, "obs": what})
+            key = SIG.get(t) or "C04|%s-crash|%s" % (fe, sig)
+            chk.violation(key, "%s: %s on %r" % (fe, what[:160], t[:60]), {"text": t, "front_end": fe, "obs": what})
         ev = [{"e": "src", "predicted": ""}]
         c = o["cli"][0]
         ev.append({"e": "cli", "exit": c["exit"] if c["exit"] is not None else -1, "hang": bool(c["timed_out"])})
